@@ -63,7 +63,7 @@ func s1Length(data []byte) int {
 			continue
 		}
 		if in {
-			n += len(l)
+			n += len(l) - strings.Count(l, "-") // the annotation describes the degapped reference
 		}
 	}
 	return n
